@@ -63,6 +63,16 @@ use super::ls::*;
 //@@ include lemmas/json_string.rs
 }
 use js::*;
+pub mod jv {
+use vstd::prelude::*;
+use super::rd::*;
+use super::jg::*;
+use super::ls::*;
+use super::js::*;
+use super::jt::*;
+//@@ include lemmas/json_value.rs
+}
+use jv::*;
 
 use std::io::ErrorKind;
 //@@ file-consts src/json_parser.rs
@@ -114,6 +124,7 @@ pub trait JsonParserUtils {
 //@@ header
         requires old(self).rv2().ok, old(self).rv2().cur is Some,
         ensures lex_post(old(self).rv2(), final(self).rv2(), r), progress(old(self).rv2(), final(self).rv2(), r),
+            r is Ok ==> bytes_at(old(self).rv2().pending, 1, rue()), // @tobl L3.word
             r is Ok ==> final(self).rv2().pending.len() + 4 == old(self).rv2().pending.len(), // @tobl L2.word_len
             r is Ok ==> r->Ok_0 == JsonValue::Boolean(true), // @tobl L2.value
 //@@ endfn
@@ -122,6 +133,7 @@ pub trait JsonParserUtils {
 //@@ header
         requires old(self).rv2().ok, old(self).rv2().cur is Some,
         ensures lex_post(old(self).rv2(), final(self).rv2(), r), progress(old(self).rv2(), final(self).rv2(), r),
+            r is Ok ==> bytes_at(old(self).rv2().pending, 1, alse()), // @tobl L3.word
             r is Ok ==> final(self).rv2().pending.len() + 5 == old(self).rv2().pending.len(), // @tobl L2.word_len
             r is Ok ==> r->Ok_0 == JsonValue::Boolean(false), // @tobl L2.value
 //@@ endfn
@@ -130,6 +142,7 @@ pub trait JsonParserUtils {
 //@@ header
         requires old(self).rv2().ok, old(self).rv2().cur is Some,
         ensures lex_post(old(self).rv2(), final(self).rv2(), r), progress(old(self).rv2(), final(self).rv2(), r),
+            r is Ok ==> bytes_at(old(self).rv2().pending, 1, ull()), // @tobl L3.word
             r is Ok ==> final(self).rv2().pending.len() + 4 == old(self).rv2().pending.len(), // @tobl L2.word_len
             r is Ok ==> r->Ok_0 == JsonValue::Null, // @tobl L2.value
 //@@ endfn
@@ -142,6 +155,9 @@ pub trait JsonParserUtils {
             // "[" ws "]" is the empty array (RFC 8259: white space is allowed after begin-array)
             ({ let p = old(self).rv2().pending; let w = ws_run(from(p, 1)) as int;
                !is_io(r) && at(p, 1 + w) == Some(0x5du8) ==> r is Ok && r->Ok_0 == json_array(Seq::empty()) && final(self).rv2().pending.len() == p.len() - (w + 2) }), // @tobl L2.empty_array
+            // the elements are the values of the element texts, in order; the array text ends at its `]`
+            ({ let p = old(self).rv2().pending;
+               r is Ok ==> (match arr(p) { Some((vs, e)) => r->Ok_0 == json_array(vs) && 0 < e <= p.len() && final(self).rv2().pending =~= from(p, e), None => false }) }), // @tobl L3.elements
         decreases old(self).rv2().pending.len(), 1int,
 //@@ endfn
 //@@ fn jsonparserutils.read_object = src/json_parser.rs :: trait JsonParserUtils :: fn read_object
@@ -152,6 +168,9 @@ pub trait JsonParserUtils {
             r is Ok ==> r->Ok_0 is Object, // @tobl L2.kind
             ({ let p = old(self).rv2().pending; let w = ws_run(from(p, 1)) as int;
                !is_io(r) && at(p, 1 + w) == Some(0x7du8) ==> r is Ok && r->Ok_0 == json_object(Seq::empty()) && final(self).rv2().pending.len() == p.len() - (w + 2) }), // @tobl L2.empty_object
+            // the members are name : value pairs in order, inserted as IndexMap::insert does; the object text ends at its `}`
+            ({ let p = old(self).rv2().pending;
+               r is Ok ==> (match obj(p) { Some((ms, e)) => r->Ok_0 == json_object(ms) && 0 < e <= p.len() && final(self).rv2().pending =~= from(p, e), None => false }) }), // @tobl L3.members
         decreases old(self).rv2().pending.len(), 1int,
 //@@ endfn
 //@@ fn jsonparserutils.read_number = src/json_parser.rs :: trait JsonParserUtils :: fn read_number
@@ -215,25 +234,41 @@ impl<R: Read> JsonParserUtils for Reader<R> {
 //@@ endfn
 //@@ fn lex.read_true = src/json_parser.rs :: impl<R: Read> JsonParserUtils for Reader<R> :: fn read_true
 //@@ safety C01 C05 C16
+//@@ rewrite byte_literals
 //@@ endfn
 //@@ fn lex.read_false = src/json_parser.rs :: impl<R: Read> JsonParserUtils for Reader<R> :: fn read_false
 //@@ safety C01 C05 C16
+//@@ rewrite byte_literals
 //@@ endfn
 //@@ fn lex.read_null = src/json_parser.rs :: impl<R: Read> JsonParserUtils for Reader<R> :: fn read_null
 //@@ safety C01 C05 C16
+//@@ rewrite byte_literals
 //@@ endfn
 //@@ fn lex.read_array = src/json_parser.rs :: impl<R: Read> JsonParserUtils for Reader<R> :: fn read_array
 //@@ safety C01 C05 C06 C16
 //@@ rewrite try_io
+//@@ attr
+#[verifier::spinoff_prover]
+#[verifier::rlimit(400)]
 //@@ header
         decreases old(self).rv2().pending.len(), 1int,
 //@@ rewrite vec_macro_empty
+//@@ body-start
+        let ghost pp = self.pending();
+        let ghost q = from(pp, 1);
+        let ghost w2 = ws_run(q) as int;
+        broadcast use js::lemma_from_from, jv::group_jv, jt::group_json_names;
+        proof { lemma_arr(pp); }
 //@@ loop 1
             invariant
             rview(self).ok, self.name() == old(self).name(),
             advance(old(self).pending(), self.pending()),
                 self.pending().len() < old(self).pending().len(),
                 at(old(self).pending(), 1 + ws_run(from(old(self).pending(), 1)) as int) != Some(0x5du8),
+                pp == old(self).pending(), q == from(pp, 1), w2 == ws_run(q) as int, pp.len() > 0, 0 <= w2 <= q.len(),
+                0 <= q.len() - self.pending().len() <= q.len(),
+                self.pending() =~= from(q, q.len() - self.pending().len()),
+                items(q, q.len() - self.pending().len(), array@) == items(q, w2, Seq::empty()),
             decreases self.pending().len(),
 //@@ after#1 "self.eat_whitespace()?;"
         proof {
@@ -242,19 +277,68 @@ impl<R: Read> JsonParserUtils for Reader<R> {
             let w = ws_run(p1) as int;
             assert(self.pending() =~= from(p, 1 + w));
             assert(self.pending().len() > 0 ==> self.pending()[0] == p[1 + w]);
+            assert(from(p, 1 + w) =~= from(q, w));
         }
+//@@ before#1 "return Ok(JsonValue::Array(vec![]));"
+            proof { assert(self.pending() =~= from(pp, 1 + w2 + 1)); }
+//@@ loop-start 1
+            let ghost i: int = q.len() - self.pending().len();
+            let ghost acc0 = array@;
+            broadcast use js::lemma_from_from, jv::group_jv, jt::group_json_names;
+            proof { lemma_items(q, i, acc0); }
+//@@ after "array.push(value);"
+            let ghost n: int = (pv(from(q, i))->0).1;
+            proof {
+                assert(pv(from(q, i)) == Some((value, n)));
+                assert(self.pending() =~= from(q, i + n));
+            }
+//@@ after#2 "self.eat_whitespace()?;"
+            let ghost w: int = ws_run(from(q, i + n)) as int;
+            proof {
+                assert(self.pending() =~= from(q, i + n + w));
+                assert(self.pending().len() > 0 ==> self.pending()[0] == q[i + n + w]);
+                assert(self.pending().len() == 0 ==> i + n + w == q.len());
+            }
+//@@ before "return Ok(JsonValue::Array(array));"
+                    proof {
+                        assert(at(q, i + n + w) == Some(0x5du8));
+                        assert(self.pending() =~= from(q, i + n + w + 1));
+                        assert(items(q, i, acc0) == Some((array@, i + n + w + 1)));
+                        lemma_arr(pp);
+                        assert(at(q, w2) == at(pp, 1 + w2));
+                        assert(from(q, i + n + w + 1) =~= from(pp, 1 + (i + n + w + 1)));
+                    }
+//@@ loop-end 1
+            proof {
+                assert(at(q, i + n + w) == Some(0x2cu8));
+                assert(self.pending() =~= from(q, i + n + w + 1));
+                assert(items(q, i, acc0) == items(q, i + n + w + 1, array@));
+            }
 //@@ endfn
 //@@ fn lex.read_object = src/json_parser.rs :: impl<R: Read> JsonParserUtils for Reader<R> :: fn read_object
 //@@ safety C01 C05 C06 C16
 //@@ rewrite try_io
+//@@ attr
+#[verifier::spinoff_prover]
+#[verifier::rlimit(600)]
 //@@ header
         decreases old(self).rv2().pending.len(), 1int,
+//@@ body-start
+        let ghost pp = self.pending();
+        let ghost q = from(pp, 1);
+        let ghost w2 = ws_run(q) as int;
+        broadcast use js::lemma_from_from, jv::group_jv, jt::group_json_names;
+        proof { lemma_obj(pp); }
 //@@ loop 1
             invariant
             rview(self).ok, self.name() == old(self).name(),
             advance(old(self).pending(), self.pending()),
                 self.pending().len() < old(self).pending().len(),
                 at(old(self).pending(), 1 + ws_run(from(old(self).pending(), 1)) as int) != Some(0x7du8),
+                pp == old(self).pending(), q == from(pp, 1), w2 == ws_run(q) as int, pp.len() > 0, 0 <= w2 <= q.len(),
+                0 <= q.len() - self.pending().len() <= q.len(),
+                self.pending() =~= from(q, q.len() - self.pending().len()),
+                members(q, q.len() - self.pending().len(), map.entries()) == members(q, w2, Seq::empty()),
             decreases self.pending().len(),
 //@@ after#1 "self.eat_whitespace()?;"
         proof {
@@ -263,11 +347,67 @@ impl<R: Read> JsonParserUtils for Reader<R> {
             let w = ws_run(p1) as int;
             assert(self.pending() =~= from(p, 1 + w));
             assert(self.pending().len() > 0 ==> self.pending()[0] == p[1 + w]);
+            assert(from(p, 1 + w) =~= from(q, w));
         }
+//@@ after "let mut map = IndexMap::new();"
+        proof { assert(map.entries() =~= Seq::<(String, JsonValue)>::empty()); }
 //@@ before#1 "return Ok(JsonValue::Object(map));"
             proof {
                 assert(map.entries() =~= Seq::<(String, JsonValue)>::empty());
                 assert(JsonValue::Object(map) == json_object(map.entries()));
+                assert(self.pending() =~= from(pp, 1 + w2 + 1));
+            }
+//@@ loop-start 1
+            let ghost i: int = q.len() - self.pending().len();
+            let ghost acc0 = map.entries();
+            broadcast use js::lemma_from_from, jv::group_jv, jt::group_json_names;
+            let ghost n: int = (pv(from(q, i))->0).1;
+            let ghost w: int = ws_run(from(q, i + n)) as int;
+            let ghost c: int = i + n + w + 1;
+            let ghost n2: int = (pv(from(q, c))->0).1;
+            let ghost w3: int = ws_run(from(q, c + n2)) as int;
+            proof { lemma_members(q, i, acc0); }
+//@@ before#2 "self.eat_whitespace()?;"
+                        proof {
+                            assert(pv(from(q, i)) == Some((JsonValue::String(key), n)));
+                            assert(self.pending() =~= from(q, i + n));
+                        }
+//@@ after#2 "self.eat_whitespace()?;"
+                        proof {
+                            assert(self.pending() =~= from(q, i + n + w));
+                            assert(self.pending().len() > 0 ==> self.pending()[0] == q[i + n + w]);
+                        }
+//@@ after#3 "self.next()?;"
+                        proof {
+                            assert(at(q, i + n + w) == Some(0x3au8));
+                            assert(self.pending() =~= from(q, c));
+                        }
+//@@ after "map.insert(key, value);"
+                            proof {
+                                assert(pv(from(q, c)) == Some((value, n2)));
+                                assert(self.pending() =~= from(q, c + n2));
+                                assert(map.entries() == im_insert(acc0, key, value));
+                            }
+//@@ after#3 "self.eat_whitespace()?;"
+            proof {
+                assert(self.pending() =~= from(q, c + n2 + w3));
+                assert(self.pending().len() > 0 ==> self.pending()[0] == q[c + n2 + w3]);
+                assert(self.pending().len() == 0 ==> c + n2 + w3 == q.len());
+            }
+//@@ before#2 "return Ok(JsonValue::Object(map));"
+                    proof {
+                        assert(at(q, c + n2 + w3) == Some(0x7du8));
+                        assert(self.pending() =~= from(q, c + n2 + w3 + 1));
+                        assert(members(q, i, acc0) == Some((map.entries(), c + n2 + w3 + 1)));
+                        lemma_obj(pp);
+                        assert(at(q, w2) == at(pp, 1 + w2));
+                        assert(from(q, c + n2 + w3 + 1) =~= from(pp, 1 + (c + n2 + w3 + 1)));
+                    }
+//@@ loop-end 1
+            proof {
+                assert(at(q, c + n2 + w3) == Some(0x2cu8));
+                assert(self.pending() =~= from(q, c + n2 + w3 + 1));
+                assert(members(q, i, acc0) == members(q, c + n2 + w3 + 1, map.entries()));
             }
 //@@ endfn
 //@@ fn lex.read_number = src/json_parser.rs :: impl<R: Read> JsonParserUtils for Reader<R> :: fn read_number
@@ -454,8 +594,15 @@ impl<R: Read> JsonParser for Reader<R> {
             assert(self.pending().len() > 0 ==> self.pending()[0] == p[w]);
             assert(self.pending().len() == 0 ==> w == p.len());
         }
-        broadcast use js::lemma_from_from;
-        proof { lemma_str_dec_bounds(from(old(self).pending(), ws_run(old(self).pending()) as int), 1, Seq::empty()); }
+        broadcast use js::lemma_from_from, jv::group_jv;
+        proof {
+            let p = old(self).pending();
+            let w = ws_run(p) as int;
+            lemma_str_dec_bounds(from(p, w), 1, Seq::empty());
+            lemma_pv(p);
+            lemma_tv(from(p, w));
+            assert(w < p.len() ==> p.subrange(w, p.len() as int) == from(p, w));
+        }
 //@@ endfn
 }
 
